@@ -54,6 +54,7 @@ def handle (line : String) : String :=
   | "errval" :: args => Driver.ErrP.handle args
   | "classattr" :: args => Driver.ClsP.handle args
   | "classmerge" :: args => Driver.ClsM.handle args
+  | "textdeliver" :: args => Driver.TxD.handle args
   | "normcolor" :: args => Driver.SmallP.colorHandle args
   | "dedup" :: args => Driver.SmallP.dedupHandle args
   | "fonttags" :: args => Driver.SmallP.tagsHandle args
